@@ -10,6 +10,10 @@ NOT_BUILT = "rules designed (DESIGN.md sections 3-4) but not built yet; not clai
 
 # property -> (technique, level text, level note, design ref)
 CLAIMED = {
+ "C03": ("def-use and must-edge path facts on SSA for key normalisation across five sibling functions; type-switch agreement between Equals and Hash; who-may-write on slot keys; store-ordering check in the insertion routine; CFG ordering of raw access vs metamethod lookup",
+         "Structural necessary conditions of map behaviour with normalised keys: each is such that breaking it makes some key unreachable, some equal pair address two fields, or a metamethod see a present key. The chain invariants and traversal laws over histories are not decided.",
+         "Trusted: go/ssa. Not decided: chain invariants I1-I3, border validity, traversal over all histories, numeric equality corners.",
+         "DESIGN.md 3 (R-TABLEKEY), 4 (C03)"),
  "C09": ("typestate/lockset dataflow on the SSA CFG (must-held mutexes), after-hand-off effect analysis, who-may-write tables for thread status, call-graph reachability to Lua execution under a held mutex, def-use checks of the termination forwarding chain",
          "Structural preconditions of the coroutine protocol: nothing touches shared state after a hand-off; thread state is written under its mutex and each status by its owner; lock order receiver-then-caller; no Lua under a thread mutex; one go statement whose goroutine always ends through t.end; terminations are forwarded to the resumer. Each is necessary: breaking one is a race, a deadlock, a leaked goroutine or a swallowed kill.",
          "Trusted: go/ssa CFG, VTA reachability. Not decided: value transfer, full status table, deadlock/race freedom under all schedules.",
